@@ -61,6 +61,22 @@ for col in ("gid", "center_x", "center_y", "center_z", "front_center_x", "front_
     cmp(f"get_emc_crystal_position[{col}]", tab[col], emc[col])
 for ax in "xyz":
     for k in range(8): cmp(f"get_emc_crystal_position[points_{ax}_{k}]", tab[f"points_{ax}_{k}"], emc[f"points_{ax}"][:, k])
+# the same tables in every output library: same column names in the same order, every column bit-equal to the published table
+_libs = ["ak"]
+try:
+    import pandas  # noqa
+    _libs.append("pd")
+except ImportError:
+    pass
+for lib in _libs:
+    for which, ref_tab, fn in (("mdc", p3.get_mdc_wire_position(), p3.get_mdc_wire_position), ("emc", p3.get_emc_crystal_position(), p3.get_emc_crystal_position)):
+        t = fn(lib)
+        names = list(t.fields) if lib == "ak" else list(t.columns)
+        if names != list(ref_tab.keys()):
+            mis.append({"what": f"get_{which}_table({lib}) column names/order", "got": names[:40], "want": list(ref_tab.keys())[:40]})
+        for col in ref_tab:
+            if col in names:
+                cmp(f"get_{which}_table({lib})[{col}]", ak.to_numpy(t[col]) if lib == "ak" else t[col].to_numpy(), ref_tab[col])
 r = p3.parse_mdc_gid(g, with_pos=True)
 cmp("parse_mdc_gid.mid_x", r["mid_x"], (mdc["west_x"] + mdc["east_x"]) / 2); cmp("parse_mdc_gid.mid_y", r["mid_y"], (mdc["west_y"] + mdc["east_y"]) / 2)
 for col in ("west_x", "west_y", "west_z", "east_x", "east_y", "east_z", "stereo", "is_stereo", "superlayer", "layer", "wire"):
